@@ -160,9 +160,17 @@ func c17One(r *Run, snap *slog.VerifRegistry, calls []regCall, kind string) {
 	for _, l := range slog.AllLevels() {
 		usedVals[int(l)] = true
 	}
+	// names in use: what answers on the fresh registry (the built-in names and their aliases, in any
+	// letter case - looked up for the titles this history is going to try) plus, below, every accepted title
 	usedTitles := map[string]bool{}
 	for _, l := range slog.AllLevels() {
-		usedTitles[l.String()] = true
+		usedTitles[strings.ToLower(l.String())] = true
+	}
+	for _, cl := range calls {
+		events = nil
+		if _, err := slog.ParseLevel(cl.Title); err == nil {
+			usedTitles[strings.ToLower(cl.Title)] = true
+		}
 	}
 	for i := range calls {
 		cl := &calls[i]
@@ -178,7 +186,7 @@ func c17One(r *Run, snap *slog.VerifRegistry, calls []regCall, kind string) {
 			cl.Res = "refused"
 		}
 		after := slog.VerifRegistryDump()
-		mustRefuse := usedVals[cl.V] || usedTitles[cl.Title]
+		mustRefuse := usedVals[cl.V] || usedTitles[strings.ToLower(cl.Title)]
 		switch {
 		case mustRefuse && err == nil:
 			fail("C17/accepted-duplicate", fmt.Sprintf("RegisterLevel(%d, %q) was accepted although the value or the title is in use", cl.V, cl.Title))
@@ -190,7 +198,7 @@ func c17One(r *Run, snap *slog.VerifRegistry, calls []regCall, kind string) {
 		}
 		if err == nil {
 			usedVals[cl.V] = true
-			usedTitles[cl.Title] = true
+			usedTitles[strings.ToLower(cl.Title)] = true
 			l := slog.Level(cl.V)
 			o := observeLevel(l)
 			if o.Str != cl.Title {
